@@ -75,7 +75,7 @@ fn ip_item_obs(v: &Value) -> Value {
             json!({"a": [], "b": [], "len": 999})
         }
         Value::Object(o) => match (o.get("start").and_then(|x| x.as_str()).and_then(oct), o.get("end").and_then(|x| x.as_str()).and_then(oct)) {
-            (Some(a), Some(b)) => json!({"a": a, "b": b, "len": 0}),
+            (Some(a), Some(b)) => json!({"a": a, "b": b, "len": -1}),
             _ => json!({"a": [], "b": [], "len": 998}),
         },
         _ => json!({"a": [], "b": [], "len": 997}),
